@@ -127,6 +127,62 @@ pub fn dispatch(op: &str, req: &Value) -> Option<Value> {
             Ok(t) => json!({"json": t}),
             Err(e) => crate::ops::errs(&e),
         }),
+        // column-level lineage (`prqlc debug lineage`): the JSON text of prqlc::internal::json::from_lineage, parsed (object keys
+        // sorted by serde_json, array order kept) plus the text itself
+        "lineage" => Some(
+            match prqlc::prql_to_pl(crate::ops::s(req, "prql"))
+                .and_then(prqlc::internal::pl_to_lineage)
+                .and_then(|fc| prqlc::internal::json::from_lineage(&fc))
+            {
+                Ok(t) => {
+                    let v: Value = serde_json::from_str(&t).unwrap_or(Value::Null);
+                    // the `ast` part is the PL (op `pl` / `pl_json_text` look at it)
+                    json!({"lineage": {"frames": v.get("frames"), "nodes": v.get("nodes")}})
+                }
+                Err(e) => crate::ops::errs(&e),
+            },
+        ),
+        // the intermediate representations a compile records in the debug log (`prqlc debug log`): start a log, compile, finish;
+        // per entry its kind and serde value (object keys sorted, array order kept).  ReprDecl (the whole root module, std included)
+        // and ReprPrql are left out.  Sequential use only: the log is a process-wide static.
+        "debug_stages" => {
+            // same options as op `compile` (no formatting, no signature comment, plain display), optional target
+            let mut o = prqlc::Options::default().no_format().no_signature().with_display(prqlc::DisplayOptions::Plain);
+            if let Some(t) = req.get("target").and_then(|t| t.as_str()) {
+                match <prqlc::Target as std::str::FromStr>::from_str(t) {
+                    Ok(t) => o = o.with_target(t),
+                    Err(e) => return Some(json!({"target_error": format!("{:?}", e.reason)})),
+                }
+            }
+            prqlc::debug::log_start();
+            let res = catch_unwind(AssertUnwindSafe(|| prqlc::compile(crate::ops::s(req, "prql"), &o)));
+            let log = prqlc::debug::log_finish();
+            let result = match res {
+                Ok(Ok(sql)) => json!({"sql": sql}),
+                Ok(Err(e)) => crate::ops::errs(&e),
+                Err(p) => json!({"panic": panic_msg(p)}),
+            };
+            let mut stages: Vec<Value> = Vec::new();
+            if let Some(l) = log {
+                let v = serde_json::to_value(&l).unwrap_or(Value::Null);
+                for e in v.get("entries").and_then(|e| e.as_array()).cloned().unwrap_or_default() {
+                    match e.get("kind") {
+                        Some(Value::Object(o)) => {
+                            for (k, x) in o {
+                                if k == "ReprDecl" || k == "ReprPrql" || k == "Message" {
+                                    stages.push(json!({ "kind": k }));
+                                } else {
+                                    stages.push(json!({"kind": k, "value": x}));
+                                }
+                            }
+                        }
+                        Some(Value::String(s)) => stages.push(json!({ "kind": s })),
+                        _ => {}
+                    }
+                }
+            }
+            Some(json!({"result": result, "stages": stages}))
+        }
         // a list of sub-requests, in order, inside this one process
         "history" => {
             let steps = req["steps"].as_array().cloned().unwrap_or_default();
